@@ -1340,3 +1340,433 @@ Proof.
   - replace (fee <? round_fee (d_slash d) (d_round d)) with true by (symmetry; apply Z.ltb_lt; lia).
     rewrite orb_true_r. reflexivity.
 Qed.
+
+(* ======================================================================================= *)
+(* Lifecycle correspondence (LifeCase): amounts of the property text, bookkeeping invariant,  *)
+(* the check's machine keeps the lifecycle theorems, soundness of the executable spec         *)
+(* ======================================================================================= *)
+
+(* the code's Dec arithmetic gives the property's amounts *)
+Lemma round_fee_rfee slash r : 0 <= slash -> round_fee slash r = rfee slash r.
+Proof.
+  intros H. unfold round_fee, rfee, pct5. rewrite five_percent_eq by exact H.
+  destruct (Z.ltb_spec slash (slash / 20 * 2 ^ r)); lia.
+Qed.
+
+Lemma rfee_nonneg slash r : 0 <= slash -> 0 <= rfee slash r.
+Proof. intros H. rewrite <- round_fee_rfee by exact H. apply round_fee_nonneg. exact H. Qed.
+
+Lemma rfee_le_slash slash r : rfee slash r <= slash.
+Proof. unfold rfee. lia. Qed.
+
+Lemma rfee_double slash r : 0 <= slash -> 0 <= r -> rfee slash (r + 1) = Z.min (2 * rfee slash r) slash.
+Proof. intros H Hr. rewrite <- !round_fee_rfee by exact H. apply round_fee_double; assumption. Qed.
+
+(* from the sixth round on (five rounds so far) the fee is the whole slash amount *)
+Lemma rfee_capped slash r : 40 <= slash -> 5 <= r -> rfee slash r = slash.
+Proof.
+  intros H Hr. unfold rfee, pct5.
+  assert (32 <= 2 ^ r) by (change 32 with (2 ^ 5); apply Z.pow_le_mono_r; lia).
+  assert (2 <= slash / 20) by (apply Z.div_le_lower_bound; lia).
+  assert (slash < 20 * (slash / 20) + 20) by (pose proof (Z.mod_pos_bound slash 20 ltac:(lia)); pose proof (Z.div_mod slash 20 ltac:(lia)); lia).
+  nia.
+Qed.
+
+(* 10 %, 20 %, 40 %, 80 %, 100 %, 100 % of a slash amount that is a multiple of 20 *)
+Lemma rfee_schedule k : 0 < k ->
+  rfee (20 * k) 1 = 2 * k /\ rfee (20 * k) 2 = 4 * k /\ rfee (20 * k) 3 = 8 * k /\ rfee (20 * k) 4 = 16 * k /\
+  rfee (20 * k) 5 = 20 * k /\ rfee (20 * k) 6 = 20 * k.
+Proof.
+  intros H. unfold rfee, pct5. replace (20 * k / 20) with k by (symmetry; rewrite Z.mul_comm; apply Z.div_mul; lia).
+  repeat split; match goal with |- context [2 ^ ?n] => let v := eval vm_compute in (2 ^ n) in change (2 ^ n) with v end; lia.
+Qed.
+
+(* the base of the round fee is 5 % of the slash amount, not the accumulated burn amount: from the third
+   round on the two differ (slash 10^6: burn amount after round 2 = 150000; 150000 * 2^2 = 600000, fee 200000) *)
+Example rfee_not_from_burn :
+  rfee 1000000 2 = 200000 /\ burn_at 1000000 2 = 150000 /\ Z.min (burn_at 1000000 2 * 2 ^ 2) 1000000 = 600000 /\
+  round_fee 1000000 2 = 200000.
+Proof. vm_compute. repeat split. Qed.
+
+Lemma burn_at_1 slash : burn_at slash 1 = pct5 slash.
+Proof. unfold burn_at. cbn. lia. Qed.
+
+Lemma burn_at_next slash r : 1 <= r -> burn_at slash (r + 1) = burn_at slash r + rfee slash r.
+Proof.
+  intros H. unfold burn_at. replace (r + 1 - 1) with (Z.succ (r - 1)) by lia.
+  rewrite Z2Nat.inj_succ by lia. cbn [fee_sum]. rewrite Nat2Z.inj_succ, Z2Nat.id by lia.
+  replace (Z.succ (r - 1)) with r by lia. lia.
+Qed.
+
+(* ---- bookkeeping of the amounts in the lifecycle machine ------------------------------------ *)
+(* round >= 1; burn amount = 5 % + the fees of all rounds so far; once the fee is complete the fee total is the
+   slash amount + those round fees; before, the dispute is in its first round *)
+Definition binv (d : dispute) : Prop :=
+  0 <= d_slash d /\ 1 <= d_round d /\ d_burn d = burn_at (d_slash d) (d_round d) /\
+  (d_slash d <= d_fee_total d -> d_fee_total d = d_slash d + d_burn d - pct5 (d_slash d)) /\
+  (d_fee_total d < d_slash d -> d_round d = 1).
+
+Definition amounts (d : dispute) := (d_round d, d_burn d, d_slash d, d_fee_total d).
+
+Lemma binv_amounts d d' : amounts d = amounts d' -> binv d -> binv d'.
+Proof. unfold amounts, binv. intros E. injection E as <- <- <- <-. auto. Qed.
+
+Lemma block_dispute_amounts fx now d d' : block_dispute fx now d = Some d' -> amounts d = amounts d'.
+Proof.
+  unfold block_dispute. destruct (block_open fx now d) as [d1|] eqn:E1; [|discriminate]. intros E2.
+  assert (A1 : amounts d = amounts d1).
+  { unfold block_open in E1.
+    destruct (negb (d_open d)); [injection E1 as <-; reflexivity|].
+    destruct ((d_end d <? now) && dstatus_eqb (d_status d) Prevote); [injection E1 as <-; reflexivity|].
+    destruct (dstatus_eqb (d_status d) Voting); [|injection E1 as <-; reflexivity].
+    destruct (negb (d_has_vote d)); [discriminate|].
+    destruct ((d_vote_end d <? now) && (d_result d =? 0)); [|injection E1 as <-; reflexivity].
+    destruct (to_err (tally_vote fx (dispute_ti d now))); try discriminate. injection E1 as <-. reflexivity. }
+  rewrite A1. unfold block_pending in E2.
+  destruct (negb (d_pending d1)); [injection E2 as <-; reflexivity|].
+  destruct ((d_end d1 <? now) || dstatus_eqb (d_status d1) Resolved); [|injection E2 as <-; reflexivity].
+  destruct (negb (d_has_vote d1)); [discriminate|].
+  destruct (negb (dstatus_eqb (if negb (d_result d1 =? 0) && (d_end d1 <? now) then Resolved else d_status d1) Resolved)); [discriminate|].
+  destruct (d_executed d1); [discriminate|]. destruct (d_result d1 =? 0); [discriminate|].
+  injection E2 as <-. reflexivity.
+Qed.
+
+Lemma step_binv fx w e w' :
+  winv w -> Forall binv (w_ds w) -> step fx w e = Some w' -> Forall binv (w_ds w').
+Proof.
+  intros I B. destruct e as [slash fee | id amt | id v | id fee | dt]; cbn [step].
+  - (* propose *)
+    destruct (Z.ltb_spec slash 1) as [H1|H1]; cbn [orb]; [intros H; injection H as <-; exact B|].
+    destruct (Z.ltb_spec fee 1) as [H2|H2]; [intros H; injection H as <-; exact B|].
+    intros H; injection H as <-. cbn. apply Forall_app. split; [exact B|]. constructor; [|constructor].
+    assert (F5 : five_percent slash = pct5 slash) by (apply five_percent_eq; lia).
+    destruct (Z.ltb_spec slash fee).
+    + rewrite Z.eqb_refl. unfold binv, start_vote. cbn. rewrite F5, burn_at_1. repeat split; lia.
+    + destruct (Z.eqb_spec fee slash); unfold binv, start_vote; cbn; rewrite F5, burn_at_1; repeat split; lia.
+  - (* add fee *)
+    destruct (nth_error (w_ds w) id) as [d|] eqn:En; [|intros H; injection H as <-; exact B].
+    assert (Bd : binv d) by (eapply Forall_forall in B; [exact B | eapply nth_error_In; eauto]).
+    destruct (Z.ltb_spec amt 1) as [H1|H1]; cbn [orb]; [intros H; injection H as <-; exact B|].
+    destruct (d_end d <? w_now w); cbn [orb]; [intros H; injection H as <-; exact B|].
+    destruct (Z.leb_spec (d_slash d) (d_fee_total d)) as [H3|H3]; [intros H; injection H as <-; exact B|].
+    intros H; injection H as <-. cbn. apply Forall_upd; [exact B|].
+    destruct Bd as (S0 & R1 & Bu & Ft & Rd). specialize (Rd H3).
+    assert (Bu1 : d_burn d = pct5 (d_slash d)) by (rewrite Bu, Rd; apply burn_at_1).
+    set (amt' := if d_slash d <? d_fee_total d + amt then d_slash d - d_fee_total d else amt).
+    assert (Ha : 1 <= amt' /\ d_fee_total d + amt' <= d_slash d).
+    { unfold amt'. destruct (Z.ltb_spec (d_slash d) (d_fee_total d + amt)); lia. }
+    destruct (Z.eqb_spec (d_fee_total d + amt') (d_slash d)) as [Et|Et]; unfold binv, start_vote; cbn; repeat split; auto; lia.
+  - (* vote *)
+    destruct (nth_error (w_ds w) id) as [d|] eqn:En; [|intros H; injection H as <-; exact B].
+    assert (Bd : binv d) by (eapply Forall_forall in B; [exact B | eapply nth_error_In; eauto]).
+    destruct (negb (dstatus_eqb (d_status d) Voting) || negb (d_has_vote d) || (d_vote_end d <? w_now w)); [intros H; injection H as <-; exact B|].
+    destruct (to_err (tally_vote fx (dispute_ti (set_votes d v) (w_now w)))); intros H; injection H as <-; try exact B;
+      cbn; (apply Forall_upd; [exact B|]); (eapply binv_amounts; [|exact Bd]); reflexivity.
+  - (* new round *)
+    destruct (nth_error (w_ds w) id) as [d|] eqn:En; [|intros H; injection H as <-; exact B].
+    assert (Bd : binv d) by (eapply Forall_forall in B; [exact B | eapply nth_error_In; eauto]).
+    assert (Id : dinv (w_now w) d) by (eapply Forall_forall in I; [exact I | eapply nth_error_In; eauto]).
+    destruct (dstatus_eqb (d_status d) Unresolved) eqn:Es; cbn [negb orb]; [|intros H; injection H as <-; exact B].
+    apply dstatus_eqb_eq in Es.
+    destruct (negb (d_open d) || (d_end d <? w_now w) || (fee <? round_fee (d_slash d) (d_round d))); [intros H; injection H as <-; exact B|].
+    intros H; injection H as <-. cbn.
+    destruct Id as [S Id]. rewrite Es in Id. destruct Id as (_ & _ & _ & _ & If).
+    destruct Bd as (S0 & R1 & Bu & Ft & Rd). specialize (Ft If).
+    rewrite round_fee_rfee by exact S0. pose proof (rfee_nonneg (d_slash d) (d_round d) S0) as Hrf.
+    apply Forall_app. split.
+    + apply Forall_upd; [exact B|]. eapply binv_amounts; [|unfold binv; repeat split; eauto]. reflexivity.
+    + constructor; [|constructor]. unfold binv, start_vote. cbn. rewrite burn_at_next by exact R1. repeat split; lia.
+  - (* block *)
+    destruct (dt <? 0); [intros H; injection H as <-; exact B|].
+    destruct (map_opt (block_dispute fx (w_now w + dt)) (w_ds w)) as [ds|] eqn:Em; [|discriminate].
+    intros H; injection H as <-. cbn. eapply map_opt_Forall; [|exact Em | exact B].
+    intros a b Ba Hb. eapply binv_amounts; [eapply block_dispute_amounts; exact Hb | exact Ba].
+Qed.
+
+(* ---- the check's machine: [step] after refreshing the tally inputs --------------------------- *)
+(* equal up to the vote counters *)
+Definition veq (d d' : dispute) : Prop := d' = set_votes d (d_votes d').
+
+Lemma veq_refl d : veq d d.
+Proof. unfold veq. destruct d; reflexivity. Qed.
+Lemma veq_set d v : veq d (set_votes d v).
+Proof. unfold veq. reflexivity. Qed.
+Lemma veq_trans a b c : veq a b -> veq b c -> veq a c.
+Proof. unfold veq. intros -> ->. reflexivity. Qed.
+
+Lemma Forall2_veq_refl ds : Forall2 veq ds ds.
+Proof. induction ds; constructor; [apply veq_refl | assumption]. Qed.
+
+Lemma Forall2_veq_upd : forall ds i d v, nth_error ds i = Some d -> Forall2 veq ds (upd_nth i (set_votes d v) ds).
+Proof.
+  induction ds as [|x t IH]; intros [|i] d v H; cbn in *; try discriminate.
+  - injection H as <-. constructor; [apply veq_set | apply Forall2_veq_refl].
+  - constructor; [apply veq_refl | apply IH; exact H].
+Qed.
+
+Lemma Forall2_veq_trans a b c : Forall2 veq a b -> Forall2 veq b c -> Forall2 veq a c.
+Proof.
+  intros H. revert c. induction H as [|x y l l' Hxy H IH]; intros c Hc; inversion Hc; subst; constructor.
+  - eapply veq_trans; eauto.
+  - apply IH. assumption.
+Qed.
+
+Lemma refresh_veq env : forall ds, Forall2 veq ds (refresh env ds).
+Proof.
+  unfold refresh. induction env as [|kv env IH]; intros ds; cbn [fold_left]; [apply Forall2_veq_refl|].
+  eapply Forall2_veq_trans; [|apply IH].
+  destruct (idx (fst kv)) as [i|]; [|apply Forall2_veq_refl].
+  destruct (nth_error ds i) as [d|] eqn:En; [|apply Forall2_veq_refl].
+  apply Forall2_veq_upd. exact En.
+Qed.
+
+Lemma veq_dinv now d d' : veq d d' -> dinv now d -> dinv now d'.
+Proof. unfold veq. intros -> H. exact H. Qed.
+Lemma veq_binv d d' : veq d d' -> binv d -> binv d'.
+Proof. unfold veq. intros -> H. exact H. Qed.
+Lemma veq_dstep d d' x : veq d d' -> dstep d' x -> dstep d x.
+Proof. unfold veq. intros -> H. exact H. Qed.
+
+Lemma Forall2_Forall {A} (R : A -> A -> Prop) (Q : A -> Prop) :
+  (forall a b, R a b -> Q a -> Q b) -> forall l l', Forall2 R l l' -> Forall Q l -> Forall Q l'.
+Proof. intros H l l' F. induction F; intros G; inversion G; subst; constructor; eauto. Qed.
+
+Lemma Forall2_nth {A} (R : A -> A -> Prop) : forall l l', Forall2 R l l' ->
+  forall n a, nth_error l n = Some a -> exists b, nth_error l' n = Some b /\ R a b.
+Proof.
+  intros l l' F. induction F as [|x y l l' Hxy F IH]; intros [|n] a H; cbn in *; try discriminate.
+  - injection H as <-. eauto.
+  - apply IH. exact H.
+Qed.
+
+(* the invariant of the check's machine *)
+Definition linv (w : world) : Prop := winv w /\ Forall binv (w_ds w).
+
+Lemma life_model_step_ok fx w lin e w' lin' ch :
+  linv w -> life_model_step fx w lin e = Some (w', lin', ch) ->
+  w_now w <= w_now w' /\ linv w' /\ moved w w'.
+Proof.
+  intros [I B] H.
+  assert (K : forall ev w1, step fx w ev = Some w1 -> w_now w <= w_now w1 /\ linv w1 /\ moved w w1).
+  { intros ev w1 Hs. destruct (step_ok fx w ev w1 I Hs) as (T & I1 & M).
+    split; [exact T|]. split; [split; [exact I1 | eapply step_binv; [exact I | exact B | exact Hs]] | exact M]. }
+  assert (R : w_now w <= w_now w /\ linv w /\ moved w w) by (split; [lia|]; split; [split; assumption | apply moved_refl]).
+  destruct e as [report slash fee | id amt | id eligible v | dt env]; cbn [life_model_step] in H.
+  - destruct (fee <? MIN_FEE); [injection H as <- _ _; exact R|].
+    destruct (alookup report lin) as [k|].
+    + destruct (idx k) as [i|]; [|injection H as <- _ _; exact R].
+      destruct (step fx w (ENewRound i fee)) as [w1|] eqn:Es; [|discriminate].
+      destruct (grew w w1); injection H as <- _ _; eapply K; eauto.
+    + destruct (step fx w (EPropose slash fee)) as [w1|] eqn:Es; [|discriminate].
+      destruct (grew w w1); injection H as <- _ _; eapply K; eauto.
+  - destruct (idx id) as [i|]; [|injection H as <- _ _; exact R].
+    destruct (step fx w (EAddFee i amt)) as [w1|] eqn:Es; [|discriminate]. injection H as <- _ _. eapply K; eauto.
+  - destruct (negb eligible); [injection H as <- _ _; exact R|].
+    destruct (idx id) as [i|]; [|injection H as <- _ _; exact R].
+    destruct (step fx w (EVote i v)) as [w1|] eqn:Es; [|discriminate]. injection H as <- _ _. eapply K; eauto.
+  - destruct (step fx (W (w_now w) (refresh env (w_ds w))) (EBlock dt)) as [w1|] eqn:Es; [|discriminate].
+    injection H as <- _ _.
+    pose proof (refresh_veq env (w_ds w)) as V.
+    assert (I2 : winv (W (w_now w) (refresh env (w_ds w)))).
+    { unfold winv. cbn. eapply Forall2_Forall; [|exact V | exact I]. intros a b Hab. apply veq_dinv. exact Hab. }
+    assert (B2 : Forall binv (refresh env (w_ds w))).
+    { eapply Forall2_Forall; [|exact V | exact B]. intros a b Hab. apply veq_binv. exact Hab. }
+    destruct (step_ok fx _ _ w1 I2 Es) as (T & I1 & M). cbn in T.
+    split; [exact T|]. split; [split; [exact I1 | eapply step_binv; [exact I2 | exact B2 | exact Es]]|].
+    intros id d Hn. destruct (Forall2_nth _ _ _ V id d Hn) as [dr [Hr Vr]].
+    destruct (M id dr Hr) as [d' [Hd' Sd]]. exists d'. split; [exact Hd'|]. eapply veq_dstep; eauto.
+Qed.
+
+(* a history of the check's events *)
+Fixpoint life_model_run (fx : bool) (w : world) (lin : list (Z * Z)) (es : list levent) : option world :=
+  match es with
+  | [] => Some w
+  | e :: r => match life_model_step fx w lin e with
+              | Some (w1, lin1, _) => life_model_run fx w1 lin1 r
+              | None => None end
+  end.
+
+Lemma linv_empty t : linv (W t []).
+Proof. split; [apply winv_empty | constructor]. Qed.
+
+Lemma life_model_run_ok fx : forall es w lin w',
+  linv w -> life_model_run fx w lin es = Some w' -> w_now w <= w_now w' /\ linv w' /\ moved_far w w'.
+Proof.
+  induction es as [|e r IH]; intros w lin w' L H; cbn in H.
+  - injection H as <-. split; [lia|]. split; [exact L|]. intros id d Hn. exists d.
+    split; [exact Hn|]. split; [left; reflexivity|]. split; [lia | auto].
+  - destruct (life_model_step fx w lin e) as [[[w1 lin1] ch]|] eqn:Es; [|discriminate].
+    destruct (life_model_step_ok fx w lin e w1 lin1 ch L Es) as (T1 & L1 & M1).
+    destruct (IH w1 lin1 w' L1 H) as (T2 & L2 & M2). split; [lia|]. split; [exact L2|].
+    intros id d Hn. destruct (M1 id d Hn) as [d1 [Hn1 (S1 & R1 & C1)]].
+    destruct (M2 id d1 Hn1) as [d2 [Hn2 (S2 & R2 & C2)]]. exists d2. split; [exact Hn2|].
+    split; [eapply status_reach_trans; [apply status_step_reach; exact S1 | exact S2]|].
+    split; [lia|]. intros E. assert (rank d = rank d1) by lia. assert (rank d1 = rank d2) by lia.
+    rewrite C1, C2; auto.
+Qed.
+
+(* with the repair of F03 the check's machine never halts *)
+Lemma life_model_step_no_halt w lin e : linv w -> life_model_step true w lin e <> None.
+Proof.
+  intros [I B]. destruct e as [report slash fee | id amt | id eligible v | dt env]; cbn [life_model_step].
+  - destruct (fee <? MIN_FEE); [discriminate|]. destruct (alookup report lin) as [k|].
+    + destruct (idx k) as [i|]; [|discriminate].
+      destruct (step true w (ENewRound i fee)) eqn:Es; [destruct (grew w w0); discriminate | exfalso; eapply step_no_halt; eauto].
+    + destruct (step true w (EPropose slash fee)) eqn:Es; [destruct (grew w w0); discriminate | exfalso; eapply step_no_halt; eauto].
+  - destruct (idx id) as [i|]; [|discriminate].
+    destruct (step true w (EAddFee i amt)) eqn:Es; [discriminate | exfalso; eapply step_no_halt; eauto].
+  - destruct (negb eligible); [discriminate|]. destruct (idx id) as [i|]; [|discriminate].
+    destruct (step true w (EVote i v)) eqn:Es; [discriminate | exfalso; eapply step_no_halt; eauto].
+  - destruct (step true (W (w_now w) (refresh env (w_ds w))) (EBlock dt)) eqn:Es; [discriminate|].
+    exfalso. eapply step_no_halt; [|exact Es]. unfold winv. cbn.
+    eapply Forall2_Forall; [|apply refresh_veq | exact I]. intros a b Hab. apply veq_dinv. exact Hab.
+Qed.
+
+(* ---- soundness of the executable specification on observed records ---------------------------- *)
+Lemma status_edge_step a b : status_edge a b = true -> status_step a b.
+Proof. unfold status_step. destruct a, b; cbn; intros H; try discriminate; intuition. Qed.
+
+Definition rlc (r : drec) := (r_status r, r_open r, r_pending r, r_result r, r_executed r, r_round r).
+
+Lemma rlc_eqb_eq p n : rlc_eqb p n = true -> rlc p = rlc n.
+Proof.
+  unfold rlc_eqb, rlc. intros H. repeat (apply andb_prop in H; destruct H as [H ?]).
+  apply dstatus_eqb_eq in H. repeat match goal with X : Bool.eqb _ _ = true |- _ => apply Bool.eqb_prop in X end.
+  repeat match goal with X : (_ =? _) = true |- _ => apply Z.eqb_eq in X end. congruence.
+Qed.
+
+(* one observed record before / after an event: one edge of the status graph or none, the rank never decreases,
+   an unchanged rank means no lifecycle field changed; id, slash amount, burn amount and round are fixed *)
+Lemma rec_step_sound p n :
+  rec_step_ok p n = true ->
+  r_id p = r_id n /\ status_step (r_status p) (r_status n) /\ rrank p <= rrank n /\
+  (rrank p = rrank n -> rlc p = rlc n) /\
+  r_slash p = r_slash n /\ r_round p = r_round n /\ r_burn p = r_burn n /\ r_fee_total p <= r_fee_total n /\
+  (r_executed p = true -> r_executed n = true) /\ (r_result p <> 0 -> r_result n = r_result p).
+Proof.
+  unfold rec_step_ok. intros H. repeat (apply andb_prop in H; destruct H as [H ?]).
+  repeat match goal with X : (_ =? _) = true |- _ => apply Z.eqb_eq in X end.
+  repeat match goal with X : (_ <=? _) = true |- _ => apply Z.leb_le in X end.
+  split; [assumption|]. split; [apply status_edge_step; assumption|]. split; [assumption|].
+  split.
+  { intros E. apply Z.eqb_eq in E. match goal with X : (if rrank p =? rrank n then _ else _) = true |- _ => rewrite E in X; apply rlc_eqb_eq in X; exact X end. }
+  repeat split; try assumption.
+  - intros E. match goal with X : (if r_executed p then _ else _) = true |- _ => rewrite E in X; exact X end.
+  - intros E. apply Z.eqb_neq in E.
+    match goal with X : (if r_result p =? 0 then _ else _) = true |- _ => rewrite E in X; apply andb_prop in X; destruct X as [X _]; apply Z.eqb_eq in X; symmetry; exact X end.
+Qed.
+
+Lemma steps_ok_nth : forall P N, steps_ok P N = true ->
+  forall i p, nth_error P i = Some p -> exists n, nth_error N i = Some n /\ rec_step_ok p n = true.
+Proof.
+  induction P as [|x P IH]; intros N H i p Hp; [destruct i; discriminate|].
+  destruct N as [|y N]; [discriminate|]. cbn in H. apply andb_prop in H. destruct H as [H1 H2].
+  destruct i as [|i]; cbn in *.
+  - injection Hp as <-. eauto.
+  - eapply IH; eauto.
+Qed.
+
+(* the observations of a history on which the specification holds form a chain: every stored record persists
+   under its id and moves as [rec_step_sound] says, event after event *)
+Fixpoint obs_chain (prev : list drec) (steps : list lstep) : Prop :=
+  match steps with
+  | [] => True
+  | s :: rest => steps_ok prev (ls_recs s) = true /\ obs_chain (ls_recs s) rest
+  end.
+
+Lemma life_spec_chain : forall steps now prev lin log,
+  life_spec now prev lin log steps = [] -> (forall s, In s steps -> ls_res s < 2) -> obs_chain prev steps.
+Proof.
+  induction steps as [|s rest IH]; intros now prev lin log H R; cbn [obs_chain]; [exact I|].
+  cbn [life_spec] in H.
+  assert (Rs : ls_res s < 2) by (apply R; left; reflexivity).
+  destruct (Z.eqb_spec (ls_res s) 3); [lia|]. destruct (Z.eqb_spec (ls_res s) 2); [lia|].
+  destruct (step_spec now prev lin log s) eqn:Es; [|discriminate].
+  split.
+  - unfold step_spec in Es. apply app_nil_both in Es. destruct Es as [_ Es].
+    apply app_nil_both in Es. destruct Es as [Es _]. apply spec_if_nil in Es. exact Es.
+  - eapply IH; [exact H|]. intros x Hx. apply R. right. exact Hx.
+Qed.
+
+(* what an accepted further round looks like when the specification holds: the previous round was unresolved, open
+   and before its end, the payer is charged the round fee, the new record takes the next id *)
+Lemma propose_spec_round now prev lin report slash fee ch N k p :
+  alookup report lin = Some k -> rnth prev k = Some p ->
+  propose_spec now prev lin report slash fee ch N = [] ->
+  exists P' n, split_last N = (P', Some n) /\ r_id n = zlen prev + 1 /\
+    r_status p = Unresolved /\ r_open p = true /\ now <= r_end p /\
+    ch = rfee (r_slash p) (r_round p) /\ ch <= fee /\
+    r_status n = Voting /\ r_round n = r_round p + 1 /\ r_burn n = r_burn p + ch /\ r_fee_total n = r_fee_total p + ch.
+Proof.
+  intros Hl Hp. unfold propose_spec. destruct (split_last N) as [P' [n|]]; [|discriminate].
+  rewrite Hl, Hp. intros H.
+  apply app_nil_both in H. destruct H as [_ H]. apply app_nil_both in H. destruct H as [Hid H].
+  apply app_nil_both in H. destruct H as [H1 H]. apply app_nil_both in H. destruct H as [H2 H].
+  apply app_nil_both in H. destruct H as [H3 H]. apply app_nil_both in H. destruct H as [_ H4].
+  apply spec_if_nil in Hid, H1, H2, H3, H4. apply Z.eqb_eq in Hid, H3. apply Z.leb_le in H2.
+  apply andb_prop in H1. destruct H1 as [H1 He]. apply andb_prop in H1. destruct H1 as [Hs Ho].
+  apply dstatus_eqb_eq in Hs. apply Z.leb_le in He.
+  exists P', n. split; [reflexivity|]. split; [exact Hid|]. split; [exact Hs|]. split; [exact Ho|]. split; [exact He|].
+  split; [exact H3|]. split; [lia|].
+  unfold drec_eqb, rec_voting in H4. cbn in H4. repeat (apply andb_prop in H4; destruct H4 as [H4 ?]).
+  repeat match goal with X : (_ =? _) = true |- _ => apply Z.eqb_eq in X end.
+  match goal with X : dstatus_eqb (r_status n) Voting = true |- _ => apply dstatus_eqb_eq in X end.
+  subst ch. repeat split; assumption.
+Qed.
+
+Lemma round_fee_min slash r : 0 <= slash -> round_fee slash r = Z.min (slash / 20 * 2 ^ r) slash.
+Proof. exact (round_fee_rfee slash r). Qed.
+
+Lemma round_fee_capped slash r : 40 <= slash -> 5 <= r -> round_fee slash r = slash.
+Proof. intros H Hr. rewrite round_fee_rfee by lia. apply rfee_capped; assumption. Qed.
+
+(* the bookkeeping invariant over every history of the lifecycle machine, from the empty chain *)
+Lemma run_linv fx : forall es w w', linv w -> run fx w es = Some w' -> linv w'.
+Proof.
+  induction es as [|e r IH]; intros w w' L H; cbn in H; [injection H as <-; exact L|].
+  destruct (step fx w e) as [w1|] eqn:Es; [|discriminate]. destruct L as [I B].
+  apply (IH w1 w'); [|exact H]. split; [exact (proj1 (proj2 (step_ok fx w e w1 I Es))) | eapply step_binv; eauto].
+Qed.
+
+Lemma life_model_run_no_halt : forall es w lin, linv w -> life_model_run true w lin es <> None.
+Proof.
+  induction es as [|e r IH]; intros w lin L; cbn; [discriminate|].
+  destruct (life_model_step true w lin e) as [[[w1 lin1] ch]|] eqn:Es; [|exfalso; exact (life_model_step_no_halt w lin e L Es)].
+  apply IH. exact (proj1 (proj2 (life_model_step_ok true w lin e w1 lin1 ch L Es))).
+Qed.
+
+(* what the bookkeeping invariant says in the property's words *)
+Lemma binv_unfold d : binv d ->
+  d_burn d = d_slash d / 20 + fee_sum (d_slash d) (Z.to_nat (d_round d - 1)) /\
+  (d_slash d <= d_fee_total d -> d_fee_total d = d_slash d + fee_sum (d_slash d) (Z.to_nat (d_round d - 1))).
+Proof.
+  unfold binv, burn_at, pct5. intros (S0 & R1 & Bu & Ft & _). split; [exact Bu|]. intros H. rewrite (Ft H), Bu. lia.
+Qed.
+
+Lemma life_spec_history steps now prev lin log :
+  life_spec now prev lin log steps = [] -> (forall s, In s steps -> ls_res s < 2) ->
+  obs_chain prev steps /\
+  (forall s rest, steps = s :: rest ->
+     forall i p, nth_error prev i = Some p -> exists n, nth_error (ls_recs s) i = Some n /\ rec_step_ok p n = true).
+Proof.
+  intros H R. pose proof (life_spec_chain steps now prev lin log H R) as C. split; [exact C|].
+  intros s rest ->. cbn in C. destruct C as [C _]. apply steps_ok_nth. exact C.
+Qed.
+
+(* non-vacuity: a history recorded from the real application (nobody votes in two rounds: propose, tally without
+   quorum after two days, second round for 10 per cent, tally, execution at the dispute end) passes the check ... *)
+Definition life_example_case : c12_case :=
+  LifeCase 1700000009000000000 [(LS (LPropose 0 75000000 75000000) 0 75000000 [(DR 1 Voting true false 1 1700000009000000000 1700259209000000000 75000000 75000000 3750000 71250000 [1] true 1700000009000000000 1700172809000000000 0 false)]); (LS (LBlock 172800000000001 [(1, (TD None (C3 0 0 0) (C3 0 0 0) (C3 0 0 0) 15680000 18425281680 2087000680000 0))]) 0 0 [(DR 1 Unresolved true true 1 1700000009000000000 1700259209000000000 75000000 75000000 3750000 71250000 [1] true 1700000009000000000 1700172809000000001 6 false)]); (LS (LPropose 0 75000000 75000000) 0 7500000 [(DR 1 Unresolved false false 1 1700000009000000000 1700259209000000000 75000000 75000000 3750000 71250000 [1] true 1700000009000000000 1700172809000000001 6 false); (DR 2 Voting true true 2 1700172809000000001 1700432009000000001 82500000 75000000 11250000 71250000 [1; 2] true 1700172809000000001 1700345609000000001 0 false)]); (LS (LBlock 172800000000001 [(2, (TD None (C3 0 0 0) (C3 0 0 0) (C3 0 0 0) 15680000 18425281680 2087000680000 0))]) 0 0 [(DR 2 Unresolved true true 2 1700172809000000001 1700432009000000001 82500000 75000000 11250000 71250000 [1; 2] true 1700172809000000001 1700345609000000002 6 false)]); (LS (LBlock 86400000000001 []) 0 0 [(DR 2 Resolved true false 2 1700172809000000001 1700432009000000001 82500000 75000000 11250000 71250000 [1; 2] true 1700172809000000001 1700345609000000002 6 true)])].
+Example life_example : c12_check life_example_case = [].
+Proof. vm_compute. reflexivity. Qed.
+
+(* ... and the same history with the second round charged 20 instead of 10 per cent does not *)
+Definition life_example_bad : c12_case :=
+  LifeCase 1700000009000000000 [(LS (LPropose 0 75000000 75000000) 0 75000000 [(DR 1 Voting true false 1 1700000009000000000 1700259209000000000 75000000 75000000 3750000 71250000 [1] true 1700000009000000000 1700172809000000000 0 false)]); (LS (LBlock 172800000000001 [(1, (TD None (C3 0 0 0) (C3 0 0 0) (C3 0 0 0) 15680000 18425281680 2087000680000 0))]) 0 0 [(DR 1 Unresolved true true 1 1700000009000000000 1700259209000000000 75000000 75000000 3750000 71250000 [1] true 1700000009000000000 1700172809000000001 6 false)]); (LS (LPropose 0 75000000 75000000) 0 15000000 [(DR 1 Unresolved false false 1 1700000009000000000 1700259209000000000 75000000 75000000 3750000 71250000 [1] true 1700000009000000000 1700172809000000001 6 false); (DR 2 Voting true true 2 1700172809000000001 1700432009000000001 82500000 75000000 11250000 71250000 [1; 2] true 1700172809000000001 1700345609000000001 0 false)]); (LS (LBlock 172800000000001 [(2, (TD None (C3 0 0 0) (C3 0 0 0) (C3 0 0 0) 15680000 18425281680 2087000680000 0))]) 0 0 [(DR 2 Unresolved true true 2 1700172809000000001 1700432009000000001 82500000 75000000 11250000 71250000 [1; 2] true 1700172809000000001 1700345609000000002 6 false)]); (LS (LBlock 86400000000001 []) 0 0 [(DR 2 Resolved true false 2 1700172809000000001 1700432009000000001 82500000 75000000 11250000 71250000 [1; 2] true 1700172809000000001 1700345609000000002 6 true)])].
+Example life_example_rejected :
+  c12_check life_example_bad =
+  [Spec "round-fee: the payer was not charged min(5% of the slash amount * 2^(rounds so far), slash amount)"; Diff "charged fee"].
+Proof. vm_compute. reflexivity. Qed.
+
+Lemma life_example_both : c12_check life_example_case = [] /\ c12_check life_example_bad <> [].
+Proof. split; [exact life_example | rewrite life_example_rejected; discriminate]. Qed.
